@@ -1,6 +1,7 @@
 package props
 
 import (
+	"sync/atomic"
 	"bytes"
 	"fmt"
 	"strings"
@@ -19,6 +20,9 @@ type resConn struct {
 	sni    string
 	clock  time.Duration // offset added to the logical clock
 	before func()        // runs right before this connection (e.g. the server rotates its ticket keys)
+	// insecure: Config.InsecureSkipVerify (the caller does not authenticate the server; which
+	// sessions go to which name is still the library's business)
+	insecure bool
 }
 
 // runHistory drives connections over one shared cache against one server config.
@@ -32,6 +36,9 @@ func runHistory(conns []resConn, scfg *tls.Config, cache tls.ClientSessionCache)
 		h := RunCase(c.target, GridCase{Server: scfg}, c.sni, func(cc *tls.Config) {
 			cc.ClientSessionCache = cache
 			cc.Time = func() time.Time { return peer.Now.Add(off) }
+			if c.insecure {
+				cc.InsecureSkipVerify = true
+			}
 		}, peer.Opts{})
 		out = append(out, h)
 	}
@@ -151,8 +158,8 @@ func TestC19(t *testing.T) {
 		// "the same server name": also in the spellings a caller may use for it (absolute
 		// with a trailing dot, upper case) - one spelling per history
 		name := []string{"example.test", "example.test.", "EXAMPLE.test", "www.example.test", "www.Example.Test."}[fnv32("C19name|"+j.t.Name+"|"+j.server)%5]
-		conns := []resConn{{j.t, name, 0, nil}, {j.t, name, time.Minute, nil}, {edited, name, 2 * time.Minute, nil}, {j.t, name, 3 * time.Minute, nil},
-			{inspected, name, 4 * time.Minute, nil}, {both, name, 5 * time.Minute, nil}, {j.t, name, 6 * time.Minute, nil}}
+		conns := []resConn{{target: j.t, sni: name}, {target: j.t, sni: name, clock: time.Minute}, {target: edited, sni: name, clock: 2 * time.Minute}, {target: j.t, sni: name, clock: 3 * time.Minute},
+			{target: inspected, sni: name, clock: 4 * time.Minute}, {target: both, sni: name, clock: 5 * time.Minute}, {target: j.t, sni: name, clock: 6 * time.Minute}}
 		// a caller that removes extended_master_secret from the extension list before the hello
 		// is built (a documented edit of uconn.Extensions): the cached session was established
 		// with it, so it must not be offered - or the server has to abort
@@ -246,6 +253,7 @@ func TestC19(t *testing.T) {
 	}
 
 	// mixed specs over one cache (Roller style), several names, clock steps
+	var setSNIConns atomic.Int64
 	nh := mon.Pick(500, 60000)
 	parallel(nh, func(i int) {
 		rg := Sub("C19mix", i)
@@ -280,7 +288,35 @@ func TestC19(t *testing.T) {
 			default:
 				clock += time.Second
 			}
-			conns = append(conns, resConn{pool[rg.Intn(len(pool))], names[rg.Intn(2)], clock, nil})
+			rc := resConn{target: pool[rg.Intn(len(pool))], sni: names[rg.Intn(2)], clock: clock, insecure: i%5 == 4}
+			if rc.insecure && rg.Intn(3) == 0 && rc.target.ID.Client != tls.HelloGolang.Client {
+				// the caller builds the hello for one name and then points the connection at
+				// another one with the documented setter: a session picked up for the first
+				// name must not travel to the second
+				real := names[(rg.Intn(2)+1)%3]
+				if real != rc.sni {
+					rc.target.Style = StylePlain
+					rc.target.Edit = func(u *tls.UConn) error { u.SetSNI(real); return nil }
+					setSNIConns.Add(1)
+				}
+			}
+			conns = append(conns, rc)
+		}
+		if len(conns) > 0 && conns[0].insecure {
+			// and one such pair for certain: a plain visit of one name, then the same preset
+			// built for that name and pointed at another one
+			base := conns[len(conns)-1]
+			if base.target.ID.Client == tls.HelloGolang.Client || base.target.Edit != nil {
+				base.target = Target{Name: "Chrome_102", ID: tls.HelloChrome_102}
+			}
+			base.clock += time.Second
+			moved := base
+			moved.clock += time.Second
+			real := "verif.test"
+			moved.target.Style = StylePlain
+			moved.target.Edit = func(u *tls.UConn) error { u.SetSNI(real); return nil }
+			conns = append(conns, base, moved)
+			setSNIConns.Add(1)
 		}
 		hs := runHistory(conns, scfg, cache)
 		ticketsByName := map[string][][]byte{} // session identities seen on the wire per name
@@ -305,21 +341,32 @@ func TestC19(t *testing.T) {
 				for _, p := range ch.PSKIds {
 					ids = append(ids, p.Identity)
 				}
+				wireName := conns[k].sni
+				if ch.SNI != nil {
+					wireName = *ch.SNI // (SetSNI after the build: the name that counts is the one sent)
+				}
 				for _, id := range ids {
 					for other, list := range ticketsByName {
-						if other == conns[k].sni {
+						if other == wireName {
 							continue
 						}
 						for _, seen := range list {
 							if bytes.Equal(seen, id) {
-								r.Violation(map[string]string{"kind": "ticket_offered_for_other_name"}, fmt.Sprintf("a session identity first seen for %q was offered to %q", other, conns[k].sni), rep)
+								r.Violation(map[string]string{"kind": "ticket_offered_for_other_name"}, fmt.Sprintf("a session identity first seen for %q was offered to %q", other, wireName), rep)
 							}
 						}
 					}
-					ticketsByName[conns[k].sni] = append(ticketsByName[conns[k].sni], id)
+					ticketsByName[wireName] = append(ticketsByName[wireName], id)
 				}
 			}
-			if !h.OK() {
+			if !h.OK() && h.ClientErr != nil && strings.Contains(h.ClientErr.Error(), "after a cached session for") && conns[k].target.Edit != nil {
+				// the documented refusal: SetSNI moved the connection to another name after a
+				// session for the first one had been attached; nothing was sent
+				r.Count("refused_to_move_a_session_to_another_name", 1)
+				if len(h.C2S) != 0 {
+					r.Violation(map[string]string{"kind": "bytes_sent_before_refusal"}, "the connection was refused because of its attached session, but bytes had been written", rep)
+				}
+			} else if !h.OK() {
 				if allowed, class := classifyFailure(h); !allowed {
 					prev := "first"
 					if k > 0 {
@@ -337,6 +384,8 @@ func TestC19(t *testing.T) {
 			r.Sample(map[string]any{"history": shape, "server": server})
 		}
 	})
+	r.Count("connections_pointed_elsewhere_with_setsni_after_the_build", setSNIConns.Load())
+	r.Floor("connections_pointed_elsewhere_with_setsni_after_the_build", 50)
 	// independent server (optional): tickets and PSKs issued and verified by OpenSSL
 	{
 		var ots []Target
